@@ -38,8 +38,12 @@ type Rec struct {
 	Lex   string     `json:"lex,omitempty"`
 	B     string     `json:"b,omitempty"` // pair: allowed entry
 	M     bool       `json:"m,omitempty"` // pair: match expected
+	Posdep bool      `json:"posdep,omitempty"` // pair: answer depends on a duplicate table position (R9): no oracle
 	N     int        `json:"n,omitempty"` // tally
 	Tag   string     `json:"tag,omitempty"`
+	Inv    string    `json:"inv,omitempty"`    // tableinv
+	Fam    int       `json:"fam,omitempty"`
+	Ids    []string  `json:"ids,omitempty"`
 	T      string    `json:"t,omitempty"`      // acc: accepted token-class sequence, space separated
 	MaxLen int       `json:"maxlen,omitempty"` // cfg
 	LexL   string    `json:"lexL,omitempty"`
@@ -213,8 +217,19 @@ func (r *replayer) checkRec(rec *Rec, rng *rand.Rand) (calls int, nontrivial boo
 	case "pair":
 		o := obsSatisfies(rec.E, []string{rec.B})
 		calls++
-		if common(o, rec.E, []string{rec.B}) && (o.Err || o.Sat != rec.M) {
-			bad("match", "Satisfies", rec.E, []string{rec.B}, map[string]bool{"sat": rec.M, "err": false}, o)
+		if common(o, rec.E, []string{rec.B}) {
+			if o.Err {
+				bad("match", "Satisfies", rec.E, []string{rec.B}, map[string]bool{"sat": rec.M, "err": false}, o)
+			} else if o.Sat != rec.M {
+				what := "match"
+				if rec.Tag == "natural" {
+					what = "plus-natural-order"
+				}
+				if rec.Posdep {
+					what += "-duplicate-position"
+				}
+				bad(what, "Satisfies", rec.E, []string{rec.B}, map[string]bool{"sat": rec.M, "err": false}, o)
+			}
 		}
 		nontrivial = rec.M
 	case "val":
@@ -353,6 +368,9 @@ func (r *replayer) checkRec(rec *Rec, rng *rand.Rand) (calls int, nontrivial boo
 			}
 		}
 		nontrivial = rec.Off > 0
+	case "tableinv":
+		r.report(Mismatch{Prop: r.prop, What: "table-" + rec.Inv, Fn: "spdxlicenses.LicenseRanges", List: rec.Ids,
+			Expected: "well-formed family table (C11 clause " + rec.Inv + ")", Observed: map[string]interface{}{"family": rec.Fam, "ids": rec.Ids}, Rec: rec})
 	case "acc":
 		r.mu.Lock()
 		r.accepted[rec.T] = true
@@ -465,7 +483,11 @@ func cmdReplay(args []string) int {
 					}
 				}
 				recs++
-				kinds[rec.K]++
+				if rec.Tag != "" && rec.K != "tally" {
+					kinds[rec.K+":"+rec.Tag]++
+				} else {
+					kinds[rec.K]++
+				}
 				if len(samples) < 3 && rec.K != "tally" {
 					samples = append(samples, json.RawMessage(inner))
 				}
